@@ -65,16 +65,132 @@ fn gen_choice_shape(rng: &mut Rng, cfg: &GenCfg) -> Node {
     }
 }
 
+/// letters whose case relations are irregular (three-way folds, one-to-many mappings): outside
+/// the domain of the reference model, inside the domain of the oracle-free scan check below
+pub const IRREGULAR_CASE: &[char] = &['i', 'I', '\u{130}', '\u{131}', 'k', 'K', '\u{212A}', 's', 'S', '\u{17F}', '\u{3C3}', '\u{3C2}', '\u{3A3}', '\u{DF}', '\u{1E9E}', '\u{3C9}', '\u{3A9}', '\u{2126}', '\u{E5}', '\u{C5}', '\u{212B}', '\u{1C4}', '\u{1C5}', '\u{1C6}', '\u{10400}', '\u{10428}', 'a'];
+
+/// Oracle-free half of "leftmost": the scan (with its prefix, initial-class, minimum-length and
+/// precondition shortcuts) must stop exactly where the engine's own anchored match '^(?:P)' on
+/// the remaining suffix succeeds. Patterns with anchors are skipped (a suffix changes what
+/// they see); everything else in this dialect is context-free to the left.
+fn self_scan_check(c: &Case, obs: &mut Obs) -> Outcome {
+    let ast = match ast_of(c) {
+        Some(a) => a,
+        None => return Outcome::Inconclusive("no_ast"),
+    };
+    if ast.has_anchor() || c.dialect != Dialect::XPath || c.flags.contains('q') {
+        return Outcome::Inconclusive("self_scan_not_applicable");
+    }
+    let re = match compile_case(c) {
+        Ok(r) => r,
+        Err(o) => return o,
+    };
+    if re.verif_facts().5 {
+        return Outcome::Inconclusive("pattern_matches_empty");
+    }
+    let fl: String = c.flags.chars().filter(|x| *x != 'm').collect();
+    let anchored = match engine::compile(&format!("^(?:{})", c.pattern), &fl, c.dialect) {
+        Ok(Ok(r)) => r,
+        Ok(Err(_)) => return Outcome::Inconclusive("anchored_form_rejected"),
+        Err(f) => return api(Err::<(), engine::Fail>(f), "compile").err().unwrap(),
+    };
+    let spans = match api(engine::spans_via_replace(&re, &c.input), "replace_all") {
+        Ok(Ok(v)) => v,
+        Ok(Err(_)) => return Outcome::Inconclusive("replace_rejected"),
+        Err(o) => return o,
+    };
+    let chars: Vec<char> = c.input.chars().collect();
+    let suffix = |k: usize| -> String { chars[k..].iter().collect() };
+    let mut at = |k: usize| -> Result<bool, Outcome> { api(engine::is_match(&anchored, &suffix(k)), "is_match") };
+    let mut pos = 0usize;
+    for (s, e) in &spans {
+        for k in pos..*s {
+            match at(k) {
+                Ok(true) => return Outcome::Violated(vec![Finding::new("scan_skips_anchored_match", format!("spans {:?}: nothing reported at offset {}", spans, k), format!("'^(?:P)' matches the suffix at offset {}", k))]),
+                Ok(false) => {}
+                Err(o) => return o,
+            }
+        }
+        match at(*s) {
+            Ok(false) => return Outcome::Violated(vec![Finding::new("span_start_not_an_anchored_match", format!("spans {:?}", spans), format!("'^(?:P)' does not match the suffix at offset {}", s))]),
+            Ok(true) => {}
+            Err(o) => return o,
+        }
+        pos = if e > s { *e } else { s + 1 };
+    }
+    for k in pos..chars.len() {
+        match at(k) {
+            Ok(true) => return Outcome::Violated(vec![Finding::new("scan_skips_anchored_match", format!("spans {:?}: nothing reported at offset {}", spans, k), format!("'^(?:P)' matches the suffix at offset {}", k))]),
+            Ok(false) => {}
+            Err(o) => return o,
+        }
+    }
+    obs.count("self_scan_checked");
+    if !spans.is_empty() {
+        obs.count("self_scan_with_matches");
+        if spans[0].0 > 0 {
+            obs.count("self_scan_match_not_at_offset_0");
+        }
+        if ast.size() >= 2 {
+            obs.nontrivial(c.key());
+        }
+    }
+    Outcome::Held
+}
+
 impl Monitor for C02 {
     fn rule(&self) -> &'static str {
         "cases = (pattern that cannot match the empty string, flags, input with astral characters); match spans observed through replace_all(s, U+1 $0 U+2) and analyze; oracle: ordered-choice scan of the reference model where no quantifier has a nullable body (strict clause), otherwise leftmost start + span membership in the match relation (weak clause). Non-trivial: AST >= 2 nodes, non-empty input and at least one match; distinct by (pattern, flags, input)."
     }
     fn check(&self, c: &Case, obs: &mut Obs) -> Outcome {
+        if c.aux.as_deref() == Some("selfscan") {
+            return self_scan_check(c, obs);
+        }
         ref_check(c, obs, Wants { spans: true, ..Default::default() })
     }
     fn workload(&self, w: &Work, emit: &mut dyn FnMut(Case)) -> J {
         let n = w.share(150_000, 5_000_000);
         let mut rng = w.rng("C02", 1);
+        // oracle-free scan check, on the alphabet the reference model does not cover
+        {
+            let ns = w.share(40_000, 1_000_000);
+            let mut rng = w.rng("C02", 2);
+            let mut cfg = GenCfg::std(IRREGULAR_CASE);
+            cfg.props = false;
+            cfg.no_nullable_quant = true;
+            let std = GenCfg::std(STD_ALPHA);
+            for k in 0..ns {
+                let ast = match k % 4 {
+                    0 => {
+                        // literal prefix (the prefix scan) followed by anything
+                        let w = 1 + rng.below(3);
+                        let mut v: Vec<Node> = (0..w).map(|_| Node::Char(*rng.pick(IRREGULAR_CASE))).collect();
+                        if rng.chance(1, 2) {
+                            v.push(gen_pattern(&mut rng, &cfg));
+                        }
+                        Node::Cat(v).normalize()
+                    }
+                    1 => gen_shortcut(&mut rng, &cfg),
+                    2 => gen_pattern(&mut rng, &cfg),
+                    _ => gen_shortcut(&mut rng, &std),
+                };
+                if ast.nullable() || ast.has_anchor() || !ast.valid_backrefs() {
+                    continue;
+                }
+                let fl = *rng.pick(&["i", "i", "i", "", "is", "ix"]);
+                for _ in 0..2 {
+                    let alpha: &[char] = if k % 4 == 3 { STD_EXTRA } else { IRREGULAR_CASE };
+                    let mut inp = gen_input(&mut rng, &ast, alpha, 8);
+                    if fl.contains('i') && rng.chance(1, 2) {
+                        // swap the case of some letters so that the match is not in the pattern's own case
+                        inp = inp.chars().map(|ch| if rng.chance(1, 2) { crate::uoracle::case_partner(ch).unwrap_or(ch) } else { ch }).collect();
+                    }
+                    let mut c = Case::new(&ast, fl, &inp);
+                    c.aux = Some("selfscan".to_string());
+                    emit(c);
+                }
+            }
+        }
         let mut strict = GenCfg::std(&['a', 'b', 'a', 'b', 'A', '\u{10400}', ' ']);
         strict.no_nullable_quant = true;
         strict.backrefs = false;
@@ -153,6 +269,18 @@ impl Monitor for C03 {
             if ast.count_groups() == 0 || (ast.nullable() && rng.chance(9, 10)) {
                 continue;
             }
+            if k % 8 == 5 {
+                // the same pattern anchored to line starts under flag m, on an input of several
+                // lines: successive matches start from the '^' fast path of the search loop and
+                // must not see the groups of the previous line's match
+                let anchored = Node::Cat(vec![Node::Bol, ast.clone()]).normalize();
+                let fl = *rng.pick(&["m", "m", "mi", "ms"]);
+                for _ in 0..3 {
+                    let lines: Vec<String> = (0..2 + rng.below(2)).map(|_| gen_input(&mut rng, &ast, &['a', 'b', 'c', '\u{10400}'], 4).replace('\n', "")).collect();
+                    emit(Case::new(&anchored, fl, &lines.join("\n")));
+                }
+                continue;
+            }
             let fl = *rng.pick(&["", "", "i", "s"]);
             for _ in 0..3 {
                 let inp = gen_input(&mut rng, &ast, &['a', 'b', 'c', '\u{10400}', '\n'], 9);
@@ -169,7 +297,7 @@ impl Monitor for C03 {
 // ------------------------------------------------------------------------------------------
 pub struct C19;
 
-fn gen_backref_shape(rng: &mut Rng) -> Node {
+pub fn gen_backref_shape(rng: &mut Rng) -> Node {
     let ch = |rng: &mut Rng| Node::Char(*rng.pick(&['a', 'b', 'A']));
     let any = |rng: &mut Rng| -> Node {
         match rng.below(4) {
@@ -180,7 +308,19 @@ fn gen_backref_shape(rng: &mut Rng) -> Node {
     };
     let rep = |body: Node, min: usize, max: Option<usize>, greedy: bool| Node::Repeat { body: Box::new(body), min, max, greedy, spell: 0 };
     let grp = |n: Node| Node::Group(Box::new(n));
-    match rng.below(8) {
+    match rng.below(9) {
+        // counted repetition of a fixed-length cluster whose alternatives set different groups,
+        // followed by a back-reference that tells the alternatives of the last repetition apart
+        8 => {
+            let alt = Node::Alt(vec![grp(any(rng)), grp(any(rng))]);
+            let n = 2 + rng.below(2);
+            let max = if rng.chance(2, 3) { Some(n) } else { Some(n + 1) };
+            let mut v = vec![rep(Node::NcGroup(Box::new(alt)), n, max, rng.chance(3, 4)), Node::Backref(1 + rng.below(2))];
+            if rng.chance(2, 3) {
+                v.push(ch(rng));
+            }
+            Node::Cat(v)
+        }
         // group in sequence
         0 => Node::Cat(vec![grp(rep(any(rng), 1, Some(2), true)), ch(rng), Node::Backref(1)]),
         // group in an earlier alternative / optional group that may not participate
@@ -502,6 +642,9 @@ impl Monitor for C12 {
             Outcome::Held | Outcome::Inconclusive("pattern_matches_empty") | Outcome::Inconclusive("engine_reports_matches_empty") | Outcome::Inconclusive("reference_selects_empty_match") => {}
             other => return other,
         }
+        if ast.has_anchor_in_alternative() && !c.input.is_empty() {
+            obs.count("anchor_in_alternative");
+        }
         // oracle-free: flag insensitivity
         let re = match compile_case(c) {
             Ok(r) => r,
@@ -567,19 +710,25 @@ impl Monitor for C12 {
         cfg.backrefs = false;
         let short = all_inputs(&['a', 'b', '\n', '\r'], 3);
         for k in 0..n {
-            let mut ast = if k % 5 == 4 { gen_line_shape(&mut rng, &['a', 'b']) } else { gen_pattern(&mut rng, &cfg) };
-            // force an anchor or dot at a random position
-            let size = ast.size();
-            let mut at = rng.below(size) as isize;
-            let repl = match rng.below(3) {
-                0 => Node::Bol,
-                1 => Node::Eol,
-                _ => Node::Dot,
+            let mut ast = match k % 5 {
+                4 => gen_line_shape(&mut rng, &['a', 'b']),
+                3 => gen_anchor_giveback(&mut rng),
+                _ => gen_pattern(&mut rng, &cfg),
             };
-            ast = ast.map_at(&mut at, &|old: &Node| match old {
-                Node::Char(_) | Node::Dot | Node::Bol | Node::Eol | Node::Esc(_) | Node::Class(_) => repl.clone(),
-                o => Node::Cat(vec![repl.clone(), o.clone()]),
-            });
+            // force an anchor or dot at a random position
+            if k % 5 != 3 || !(ast.has_anchor() || ast.has_dot()) {
+                let size = ast.size();
+                let mut at = rng.below(size) as isize;
+                let repl = match rng.below(3) {
+                    0 => Node::Bol,
+                    1 => Node::Eol,
+                    _ => Node::Dot,
+                };
+                ast = ast.map_at(&mut at, &|old: &Node| match old {
+                    Node::Char(_) | Node::Dot | Node::Bol | Node::Eol | Node::Esc(_) | Node::Class(_) => repl.clone(),
+                    o => Node::Cat(vec![repl.clone(), o.clone()]),
+                });
+            }
             if !ast.valid_backrefs() {
                 continue;
             }
